@@ -2,7 +2,9 @@
  * reference counter, run under the deterministic scheduler (harness/vsched).
  * Case lines:
  *   lock <spin|sync|mutex|try> <nthreads> <iters>      (try: acquire by a muggle_mutex_trylock / yield loop)
- *   once <nthreads>
+ *   once <nthreads> [calls]                          (every racer calls muggle_call_once <calls> times, default 1)
+ *   atomics <int|i32|i64|byte> <init> <op> ...        (unhooked smoke run of atomic.h, see c04_atomics.c)
+ *   atomics2 <int|i32|i64> <iters>                    (same, two real threads)
  *   refcnt <init> <script0> <script1> ...      script letters: r = retain, d = release
  *   sched <spec>                                (see vsched.h)
  * Output: the event trace, then summary lines "F ...". */
@@ -16,8 +18,13 @@
 #include "muggle/c/base/err.h"
 #include <sched.h>
 
+/* harness/drivers/c04_atomics.c: the only object compiled without the scheduler hooks */
+void c04_atomics_run(const char *variant, long long init, int nops, char **ops);
+void c04_atomics_pair(const char *variant, long long iters);
+
 static char scen[64], sched[4096];
-static int nthreads, iters, refinit;
+static int nthreads, iters, refinit, once_calls;
+static char at_line[4096];
 static char scripts[VS_MAXT][64];
 
 static muggle_spinlock_t spin;
@@ -60,8 +67,10 @@ static void once_func(void)
 static void once_thread(void *arg)
 {
 	(void)arg;
-	muggle_call_once(&once_flag, once_func);
-	vs_note("ret done=%d", once_done);
+	for (int i = 0; i < once_calls; i++) {
+		muggle_call_once(&once_flag, once_func);
+		vs_note("ret done=%d", once_done);
+	}
 }
 
 static muggle_ref_cnt_t ref;
@@ -87,8 +96,13 @@ static void case_line(char *line)
 		kind = strcmp(k, "spin") == 0 ? 0 : strcmp(k, "sync") == 0 ? 1 : strcmp(k, "try") == 0 ? 3 : 2;
 		strcpy(scen, "lock");
 	} else if (strcmp(op, "once") == 0) {
-		sscanf(line, "%*s %d", &nthreads);
+		once_calls = 1;
+		sscanf(line, "%*s %d %d", &nthreads, &once_calls);
+		if (once_calls < 1) once_calls = 1;
 		strcpy(scen, "once");
+	} else if (strcmp(op, "atomics") == 0 || strcmp(op, "atomics2") == 0) {
+		snprintf(at_line, sizeof(at_line), "%s", line);
+		strcpy(scen, op);
 	} else if (strcmp(op, "refcnt") == 0) {
 		char *p = line + 6;
 		int used = 0;
@@ -100,8 +114,24 @@ static void case_line(char *line)
 	}
 }
 
+static void atomics_case(void)
+{
+	char *tok[256];
+	int n = 0;
+	for (char *p = strtok(at_line, " \t"); p && n < 256; p = strtok(NULL, " \t")) tok[n++] = p;
+	if (strcmp(scen, "atomics2") == 0) {
+		if (n != 3) { printf("F badcase\n"); return; }
+		c04_atomics_pair(tok[1], atoll(tok[2]));
+	} else {
+		if (n < 3) { printf("F badcase\n"); return; }
+		c04_atomics_run(tok[1], atoll(tok[2]), n - 3, tok + 3);
+	}
+	printf("F atomics\n");
+}
+
 static void case_end(void)
 {
+	if (strncmp(scen, "atomics", 7) == 0) { atomics_case(); return; }
 	if (!scen[0] || nthreads <= 0 || nthreads > VS_MAXT) { printf("F badcase\n"); return; }
 	vs_reset();
 	vs_set_schedule(sched);
